@@ -91,6 +91,26 @@ SPECS = [
          ],
          raises={'*': {'ensures': ["raised('e1') or raised('e2')"]}},
          serves=['C04'], no_token_posts=True),
+    # "names exactly the failing expression's text together with the line and column at which THAT
+    # text stands": the same expression text written several times (prefixed forms, which are parsed
+    # into expression objects, and plain ones) is announced at each evaluation with the position of
+    # the occurrence being evaluated (generated token posts, one per occurrence)
+    dict(id='S-Same-not-twice',
+         text='A<p tal:condition="not: e1">x</p>\n<p tal:condition="not: e1">w</p>${e4}\n ${e4}B',
+         ensures=["trace('e1', 'e1', 'e4', 'e4')"],
+         raises={'*': {'ensures': ["raised('e1') or raised('e4')"]}},
+         serves=['C12', 'C04']),
+    dict(id='S-Same-exists-twice',
+         text='A<b tal:condition="exists: e3"/>\n<b tal:condition="exists: e3"/>B',
+         ensures=["trace('e3', 'e3')"],
+         raises={'*': {'ensures': ["raised('e3')"]}},
+         serves=['C12', 'C04']),
+    dict(id='S-Same-string-twice',
+         text='A<i tal:define="a string:v ${e2}">y</i>\n <i tal:define="a string:v ${e2}">z</i>B',
+         own_names=['a'],
+         ensures=["trace('e2', 'e2')"],
+         raises={'*': {'ensures': ["True"]}},
+         serves=['C12', 'C04']),
     dict(id='S-Interp-off', text='A<p meta:interpolation="off">${e1} $ {x}</p>B',
          ensures=["evals(1) == 0", "S() == S0() + 'A<p>${e1} $ {x}</p>B'"],
          serves=['C06']),
